@@ -4,3 +4,11 @@ claim("C09", "proof",
       "Lean theorems over M-Heap (mirror of gc.c): invariant preserved by every operation over any history, a collection keeps exactly the reachable cells; M-Heap tied to gc.c by state-for-state correspondence on seeded histories",
       "Lean kernel + propext/Classical.choice/Quot.sound; the hand model is tied to gc.c only on the histories the correspondence explores; malloc/free trusted",
       "Lean 4 invariant induction + refinement to a reachability spec; model<->C differential correspondence", "DESIGN.md §3 C09")
+claim("C03", "proof",
+      "part 1 of C03: Lean theorems that the handler lookup (binary search over the exception table) returns the unique block containing the fault address, terminates and stays in bounds, tied to exctab.c by correspondence on seeded and exhaustive small tables; unwinding/delivery theorems over the VM model are added as the VM model lands",
+      "Lean kernel + standard axioms; hand model tied by correspondence; emitter's table shape checked per module (see C07)",
+      "Lean 4 proof of binary search (soundness, completeness, uniqueness, bounds) + model<->C correspondence", "DESIGN.md §3 C03")
+claim("C12", "proof",
+      "Lean theorems over the model of the VM's index arithmetic: row-major exactness/injectivity/bounds, range and slice composition denotation (two levels), string index/slice, shape guards; _partial + _counterexample where the pinned code is wrong; tied to object.c/vmexec.c by running the real handlers as single instructions against the model, exhaustive small scope",
+      "Lean kernel + standard axioms; model written by hand (sub-agent) and tied by correspondence; int overflow in slice arithmetic not modelled",
+      "Lean 4 proofs by list induction + exhaustive small-scope model<->C correspondence", "DESIGN.md §3 C12")
